@@ -261,7 +261,7 @@ func checkC13(ctx *Ctx, r *Report, tier string) {
 			for n := 0; n < 3; n++ {
 				for j, c := range []string{"X", "Y", "Z"} {
 					t := m[fmt.Sprintf("[%d].%s", n, c)]
-					wantSuffix := fmt.Sprintf(".%d.%d)", n+1, j) // field index n+1 (Vertex n+1), component j of the record read
+					wantSuffix := fmt.Sprintf(".Vertex%d[%d])", n+1, j) // component j of field Vertex(n+1) of the record read
 					if t == nil || t.Op != "conv" || t.S != "float64" || !strings.HasSuffix(t.Key(), wantSuffix) {
 						ok = false
 						if t != nil {
